@@ -21,6 +21,15 @@ use vharness::*;
 struct Ctx<'a> {
     rep: &'a mut Report,
     model: &'a mut model::Model,
+    /// rotates through the vacuous subquery predicates
+    vac: usize,
+}
+
+/// table t (with its `id` column) plus the helper tables of the vacuous subquery predicates
+fn load_c07(s: &Schema, t: &Table) -> Db {
+    let mut db = load_table(s, t);
+    load_vacuous_helpers(&mut db, t.rows.len());
+    db
 }
 
 fn replay(s: &Schema, t: &Table, sql: &str, extra: &str) -> String {
@@ -94,6 +103,32 @@ fn run_plain(cx: &mut Ctx, s: &Schema, t: &Table, db: &mut Db, rows_sx: &str, q:
             }
         }
     }
+    // ---- metamorphic: S AND <vacuous subquery predicate> has the result of S (the optimizer's
+    // subquery passes rebuild the statement; aggregates, DISTINCT flags and arguments must survive) ----
+    let k = cx.vac;
+    cx.vac += 1;
+    let mut variants: Vec<(Option<&str>, Option<&str>)> = vec![(Some(VAC_WHERE[k % VAC_WHERE.len()]), None), (None, Some(VAC_HAVING[k % VAC_HAVING.len()]))];
+    if k % 3 == 0 {
+        variants.push((Some(VAC_WHERE[(k / 3) % VAC_WHERE.len()]), Some(VAC_HAVING[(k / 3 + 2) % VAC_HAVING.len()])));
+    }
+    for (w, h) in variants {
+        let sql2 = q.sql_with(s, w, h);
+        columnar(true);
+        let out = db.query(&sql2);
+        cx.rep.count(if w.is_some() && h.is_some() { "vacuous_where+having" } else if w.is_some() { "vacuous_where" } else { "vacuous_having" });
+        if let Some(w) = w {
+            cx.rep.count(&format!("vacuous_pred_{}", &w[..w.len().min(24)]));
+        }
+        let ok = matches!(&out, Out::Rows(got) if rows_match(got, &want));
+        if !ok {
+            cx.rep.fail(
+                FailKind::Oracle,
+                None,
+                "statement with an added vacuous subquery predicate differs from the SQL definition of the statement",
+                &replay(s, t, &sql2, &format!("-- helper tables: keep(id) = every id of t, nonek(id) empty, one(x) = (1)\nengine: {}\ndefinition: {}", out.brief(), fmt_ref(&want))),
+            );
+        }
+    }
     // ---- correspondence ----
     let reply = cx.model.ask(&format!("query {} {}", q.sx_head(), rows_sx));
     let parsed = Sx::parse(&reply);
@@ -161,6 +196,45 @@ fn run_grouped(cx: &mut Ctx, s: &Schema, t: &Table, db: &mut Db, rows_sx: &str, 
             });
         if !ok {
             cx.rep.fail(FailKind::Oracle, None, &format!("GROUP BY result differs from the SQL definition ({})", path), &replay(s, t, &sql, &format!("engine: {}\ndefinition (key -> aggregates): {:?}", out.brief(), want)));
+        }
+    }
+    // ---- metamorphic: the grouped statement AND a vacuous subquery predicate (WHERE / HAVING) ----
+    {
+        let k = cx.vac;
+        cx.vac += 1;
+        let key_name = &s.cols[key].0;
+        let sel = format!("SELECT {}, {} FROM {}", key_name, items.iter().map(|i| i.sql(s)).collect::<Vec<_>>().join(", "), s.table);
+        let mut conj: Vec<String> = preds.iter().map(|p| p.sql(s)).collect();
+        let with_where = {
+            let mut c = conj.clone();
+            c.push(VAC_WHERE[k % VAC_WHERE.len()].to_string());
+            format!("{} WHERE {} GROUP BY {}", sel, c.join(" AND "), key_name)
+        };
+        let base_where = if conj.is_empty() { String::new() } else { format!(" WHERE {}", conj.join(" AND ")) };
+        let with_having = format!("{}{} GROUP BY {} HAVING {}", sel, base_where, key_name, VAC_HAVING[k % VAC_HAVING.len()]);
+        conj.push(VAC_WHERE[(k + 2) % VAC_WHERE.len()].to_string());
+        let with_both = format!("{} WHERE {} GROUP BY {} HAVING COUNT(*) >= 0 AND {}", sel, conj.join(" AND "), key_name, VAC_HAVING[(k + 1) % VAC_HAVING.len()]);
+        let mut list = vec![with_where, with_having];
+        if k % 3 == 0 {
+            list.push(with_both);
+        }
+        for sql2 in list {
+            columnar(true);
+            let out = db.query(&sql2);
+            cx.rep.count("vacuous_grouped");
+            let ok = matches!(&out, Out::Rows(got) if got.len() == want.len()
+                && got.iter().all(|r| match want.get(&canon::val(&r[0])) {
+                    Some(w) => r.len() == w.len() + 1 && r[1..].iter().zip(w).all(|(a, b)| val_matches(a, b)),
+                    None => false,
+                }));
+            if !ok {
+                cx.rep.fail(
+                    FailKind::Oracle,
+                    None,
+                    "GROUP BY statement with an added vacuous subquery predicate differs from the SQL definition of the statement",
+                    &replay(s, t, &sql2, &format!("-- helper tables: keep(id) = every id of t, nonek(id) empty, one(x) = (1)\nengine: {}\ndefinition (key -> aggregates): {:?}", out.brief(), want)),
+                );
+            }
         }
     }
     // ---- correspondence: model group_rows + accumulators vs engine (as a map; HashMap order is not observed) ----
@@ -362,8 +436,11 @@ fn probes(cx: &mut Ctx, s: &Schema) {
             Table { rows: (0..120).map(|k| vec![if k < 105 { n.clone() } else { i(k % 4) }, i(k % 3), if k % 5 == 0 { i(1) } else { n.clone() }, if k < 110 { n.clone() } else { st(STRS[(k % 3) as usize]) }]).collect(), fill: vec![] },
         ),
     ];
-    for (_name, t) in &tables {
-        let mut db = load_table(s, t);
+    for (_name, t0) in &tables {
+        let mut t1 = t0.clone();
+        add_ids(&mut t1);
+        let t = &t1;
+        let mut db = load_c07(s, t);
         let rsx = rows_sx_of(t);
         for c in 0..4usize {
             for distinct in [false, true] {
@@ -408,7 +485,9 @@ fn large_probes(cx: &mut Ctx, s: &Schema) {
                 .collect(),
             fill: vec![],
         };
-        let mut db = load_table(s, &t);
+        let mut t = t;
+        add_ids(&mut t);
+        let mut db = load_c07(s, &t);
         let rsx = rows_sx_of(&t);
         for q in [
             // statements the columnar path takes (no SUM over an integer column)
@@ -573,9 +652,9 @@ fn main() {
     rep.assumptions.push("AggregateAccumulator::combine is dead code in the engine (#[allow(dead_code)], not reachable from SQL and not exported): its theorem has no correspondence run".into());
     let mut model = args.model();
     let mut rng = Rng::new(args.seed);
-    let s = schema();
+    let s = schema_with_id();
     {
-        let mut cx = Ctx { rep: &mut rep, model: &mut model };
+        let mut cx = Ctx { rep: &mut rep, model: &mut model, vac: 0 };
         probes(&mut cx, &s);
         large_probes(&mut cx, &s);
         let tables = args.n(160, 1800);
@@ -591,8 +670,9 @@ fn main() {
             };
             let mut r = rng.fork();
             let n = gen_size(&mut r, class, big_hi);
-            let t = gen_table(&mut r, &s, n);
-            let mut db = load_table(&s, &t);
+            let mut t = gen_table(&mut r, &s, n);
+            add_ids(&mut t);
+            let mut db = load_c07(&s, &t);
             let rsx = rows_sx_of(&t);
             for f in &t.fill {
                 cx.rep.count(&format!("column_fill_{}", f));
